@@ -1,5 +1,141 @@
 From GV Require Import Base.Grammar Base.Analyses LR.Automaton LR.Validator LR.Spec LR.Agree.
+From GV Require Import Common.Outcome LR.CloseMirror LR.CloseSpec C02.Model C02.Spec C02.Proofs.
+From GV Require Import C02.PagerSpec C02.PagerProofsPath C02.PagerProofsBridge C02.PagerProofsExists C02.PagerProofsMisc C02.PagerProofsMain.
+From GV Require Import C02.Lr1Model C02.Lr1Spec C02.Lr1Proofs.
+From GV Require Import Base.AnalysesProofs C02.LoopModel C02.LoopSpec C02.LoopProofs.
 
 Theorem C02_validated_automata_agree : validated_automata_agree_stmt.
 Proof. exact validated_automata_agree. Qed.
 Print Assumptions C02_validated_automata_agree.
+
+(* stage 1: Itemset::weakly_compatible / weakly_merge (pager.rs:28-101), mirrored, decide Pager's weak compatibility / compute the item-by-item union *)
+
+Theorem C02_weakly_compatible_mirror_spec : weakly_compatible_mirror_spec_stmt.
+Proof. exact weakly_compatible_mirror_spec. Qed.
+Print Assumptions C02_weakly_compatible_mirror_spec.
+
+Theorem C02_weakly_compatible_order_insensitive : weakly_compatible_order_insensitive_stmt.
+Proof. exact weakly_compatible_order_insensitive. Qed.
+Print Assumptions C02_weakly_compatible_order_insensitive.
+
+Theorem C02_weakly_compatible_never_panics : weakly_compatible_never_panics_stmt.
+Proof. exact weakly_compatible_never_panics. Qed.
+Print Assumptions C02_weakly_compatible_never_panics.
+
+Theorem C02_weakly_compatible_layout_insensitive : weakly_compatible_layout_insensitive_stmt.
+Proof. exact weakly_compatible_layout_insensitive. Qed.
+Print Assumptions C02_weakly_compatible_layout_insensitive.
+
+Theorem C02_weakly_compatible_spec_sym : weakly_compatible_spec_sym_stmt.
+Proof. exact weakly_compatible_spec_sym. Qed.
+Print Assumptions C02_weakly_compatible_spec_sym.
+
+Theorem C02_weakly_compatible_spec_refl : weakly_compatible_spec_refl_stmt.
+Proof. exact weakly_compatible_spec_refl. Qed.
+Print Assumptions C02_weakly_compatible_spec_refl.
+
+Theorem C02_weakly_merge_mirror_spec : weakly_merge_mirror_spec_stmt.
+Proof. exact weakly_merge_mirror_spec. Qed.
+Print Assumptions C02_weakly_merge_mirror_spec.
+
+Theorem C02_weakly_merge_is_union : weakly_merge_is_union_stmt.
+Proof. exact weakly_merge_is_union. Qed.
+Print Assumptions C02_weakly_merge_is_union.
+
+(* stage 2: Pager's merge-safety theorem on the declarative LR(1) model (theories/C02/PagerSpec.v) *)
+
+(* the path-indexed relations core_at / la_at are exactly `after` + the CloseSpec closure *)
+
+Theorem C02_after_characterisation : after_characterisation_stmt.
+Proof. exact after_characterisation. Qed.
+Print Assumptions C02_after_characterisation.
+
+Theorem C02_after_exists : after_exists_stmt.
+Proof. exact after_exists. Qed.
+Print Assumptions C02_after_exists.
+
+Theorem C02_tree_path_conflict_free_iff : tree_path_conflict_free_iff_stmt.
+Proof. exact tree_path_conflict_free_iff. Qed.
+Print Assumptions C02_tree_path_conflict_free_iff.
+
+(* (a) linearity: closure, goto and the whole continuation are union-homomorphisms in the contexts *)
+
+Theorem C02_closure_linear : closure_linear_stmt.
+Proof. exact closure_linear. Qed.
+Print Assumptions C02_closure_linear.
+
+Theorem C02_goto_linear : goto_linear_stmt.
+Proof. exact goto_linear. Qed.
+Print Assumptions C02_goto_linear.
+
+Theorem C02_state_after_linear : state_after_linear_stmt.
+Proof. exact state_after_linear. Qed.
+Print Assumptions C02_state_after_linear.
+
+Theorem C02_path_linear : path_linear_stmt.
+Proof. exact path_linear. Qed.
+Print Assumptions C02_path_linear.
+
+Theorem C02_la_origin : la_origin_stmt.
+Proof. exact la_origin. Qed.
+Print Assumptions C02_la_origin.
+
+(* (b) Pager's theorem: merging weakly compatible kernels creates no conflict *)
+
+Theorem C02_weak_merge_conflict_origin : weak_merge_conflict_origin_stmt.
+Proof. exact weak_merge_conflict_origin. Qed.
+Print Assumptions C02_weak_merge_conflict_origin.
+
+Theorem C02_weak_merge_safe_path : weak_merge_safe_path_stmt.
+Proof. exact weak_merge_safe_path. Qed.
+Print Assumptions C02_weak_merge_safe_path.
+
+Theorem C02_weak_merge_safe : weak_merge_safe_stmt.
+Proof. exact weak_merge_safe. Qed.
+Print Assumptions C02_weak_merge_safe.
+
+Theorem C02_pager_merge_step_safe : pager_merge_step_safe_stmt.
+Proof. exact pager_merge_step_safe. Qed.
+Print Assumptions C02_pager_merge_step_safe.
+
+Theorem C02_merge_needs_weak_compat : merge_needs_weak_compat_stmt.
+Proof. exact merge_needs_weak_compat. Qed.
+Print Assumptions C02_merge_needs_weak_compat.
+
+(* (c) for an LR(1) grammar no kernel a Pager-style construction can hold has a conflict *)
+
+Theorem C02_pager_reachable_conflict_free : pager_reachable_conflict_free_stmt.
+Proof. exact pager_reachable_conflict_free. Qed.
+Print Assumptions C02_pager_reachable_conflict_free.
+
+Theorem C02_conflict_free_cell : conflict_free_cell_stmt.
+Proof. exact conflict_free_cell. Qed.
+Print Assumptions C02_conflict_free_cell.
+
+(* the premise "the grammar is LR(1)" has a proved-sound executable certificate checker (run per generated grammar on canon_lr1's automaton) *)
+
+Theorem C02_lr1_check_sound : lr1_check_sound_stmt.
+Proof. exact lr1_check_sound. Qed.
+Print Assumptions C02_lr1_check_sound.
+
+Theorem C02_lr1_check_states : lr1_check_states_stmt.
+Proof. exact lr1_check_states. Qed.
+Print Assumptions C02_lr1_check_states.
+
+Theorem C02_lr1_check_pager_safe : lr1_check_pager_safe_stmt.
+Proof. exact lr1_check_pager_safe. Qed.
+Print Assumptions C02_lr1_check_pager_safe.
+
+(* the mirror of pager_stategraph + gc (theories/C02/LoopModel.v): whenever it returns, every core state is Pager-reachable, every closed state is the exact closure of its core; no conflict for LR(1) grammars *)
+
+Theorem C02_pager_mirror_reachable : pager_mirror_reachable_stmt.
+Proof. exact pager_mirror_reachable. Qed.
+Print Assumptions C02_pager_mirror_reachable.
+
+Theorem C02_pager_mirror_conflict_free : pager_mirror_conflict_free_stmt.
+Proof. exact pager_mirror_conflict_free. Qed.
+Print Assumptions C02_pager_mirror_conflict_free.
+
+Theorem C02_pager_mirror_certified : pager_mirror_certified_stmt.
+Proof. exact pager_mirror_certified. Qed.
+Print Assumptions C02_pager_mirror_certified.
